@@ -1006,7 +1006,7 @@ impl<'l> CelCompiler<'l> {
                             )
                             .into()]));
 
-                        member_prime_node = self.check_for_const(member_prime_node);
+                        member_prime_node = self.check_for_const(member_prime_node, args_len);
 
                         member_prime_ast.push(AstNode::new(
                             MemberPrime::Call {
@@ -1414,15 +1414,33 @@ impl<'l> CelCompiler<'l> {
     }
 
     #[inline]
-    fn check_for_const(&self, member_prime_node: CompiledProg) -> CompiledProg {
+    fn check_for_const(&self, member_prime_node: CompiledProg, args_len: usize) -> CompiledProg {
         let mut i = Interpreter::empty();
         i.add_bindings(&self.bindings);
         let bc = member_prime_node.into_unresolved_bytecode().resolve();
+
+        // A call without arguments has no constant input to fold and may read
+        // the clock (now(), timestamp()); it is evaluated at every execution.
+        if args_len == 0 {
+            return CompiledProg::with_bytecode(bc);
+        }
+
         let r = i.run_raw(&bc, true);
 
         match r {
-            Ok(v) => CompiledProg::with_const(v),
-            Err(_) => CompiledProg::with_bytecode(bc),
+            // An error nested in the value comes from a name that is not bound
+            // at compile time (e.g. `[x].filter(v, true)`): not a constant.
+            Ok(v) if !Self::contains_err(&v) => CompiledProg::with_const(v),
+            _ => CompiledProg::with_bytecode(bc),
+        }
+    }
+
+    fn contains_err(v: &CelValue) -> bool {
+        match v {
+            CelValue::Err(_) => true,
+            CelValue::List(l) => l.iter().any(Self::contains_err),
+            CelValue::Map(m) => m.values().any(Self::contains_err),
+            _ => false,
         }
     }
 }
